@@ -47,7 +47,7 @@ Proof. intros. apply (dry_run_inert now_z normalize chunker cfg S D ans bits ls 
 Definition f6b_S : fs := [ ([], NFolder); ([["f"%char]], NFile (TSet 10) ["x"%char]) ].
 Definition f6b_D : fs := [ ([], NFolder); ([["f"%char]], NLink ["t"%char] SKFile) ].
 Theorem C02_refuted_after_failed_link_delete :
-  let r := run_top (mkCfg false Unix (mkB BAct BAct BSkip BAct) BAct false) f6b_S f6b_D AncOk [] [] [] (mkFaults [0] [] 2) in
+  let r := run_top (mkCfg false Unix (mkB BAct BAct BSkip BAct) BAct false) f6b_S f6b_D AncOk [] [] [] (mkFaults [0] [] 2 None) in
   r_ok r = false /\ d_events (r_dest r) = [Through [["f"%char]]].
 Proof. vm_compute. split; reflexivity. Qed.
 
